@@ -224,7 +224,9 @@ pub fn build_universe_with(
             extensions_first: rng.chance(40),
             sdl_builtin_scalars: rng.chance(15),
             input_defaults: rng.chance(50),
-            input_directive_extensions: rng.chance(30),
+            // (fixed cases always; random ones more often when the schema has a @oneOf input, whose flag a careless merge of
+            // the extension's directives would reset)
+            input_directive_extensions: from_corpus || rng.chance(if schema.types.iter().any(|t| matches!(t, AType::Input { one_of: true, .. })) { 70 } else { 30 }),
             json_response_members: rng.chance(50),
             ..RenderKnobs::default()
         };
